@@ -1,0 +1,14 @@
+//go:build verif
+
+// Contracts for package fbb, checked by /verif/govc. This file contains no
+// code: with the verif tag off it is not compiled at all, with it on it adds
+// only comments.
+package fbb
+
+/*@
+func fbb.cleanString(str) (r)
+  props C03
+
+func fbb.errLine(str) (r)
+  props C03
+@*/
